@@ -29,7 +29,7 @@ DEFAULT_NOTE = ("Trusted: TLC, the hand-written specification's reading of the p
                 "script length and value alphabet as stated in the evidence; nothing is claimed beyond them.")
 NOTES = {}
 NOT_YET = {}
-HOOK_COMMITS = ["758cb06"]
+HOOK_COMMITS = ["758cb06", "604c708"]
 
 SUITES.update({k: dict(mc="MC_Seq") for k in ("subs", "multi", "fin", "cold13", "subject", "share", "behavior", "group")})
 PLAN.update({
@@ -95,3 +95,11 @@ PLAN["C01"]["quick"] = ["unary", "two", "flat", "subs", "group", "fuzz"]
 PLAN["C18"]["quick"] = ["two", "flat", "subs", "tsubs", "fuzz"]
 
 SUITES["fuzz"]["exhaustive"] = False
+
+PLAN["C05"]["quick"] = PLAN["C05"]["quick"] + ["conc"]
+PLAN["C05"]["thorough"] = PLAN["C05"]["thorough"] + ["conc"]
+
+PLAN["C11"]["quick"] = PLAN["C11"]["quick"] + ["conc"]
+PLAN["C11"]["thorough"] = PLAN["C11"]["thorough"] + ["conc"]
+# the cheap suites are part of the quick both-forms comparison as well
+PLAN["C18"]["quick"] = ["two", "flat", "subs", "tsubs", "fuzz", "fin", "cold13", "share", "group", "conv"]
